@@ -299,7 +299,7 @@ def call_contract(self, fc, recv, args, kwargs, line, label):
         if kind_ == "ghost":
             self.exec_ghost(text_, result=res)
         else:
-            self.assume_use(text_, self.env.spec_view(old=self.entry))
+            self.assume_use(text_, self.env.spec_view(old=self.entry, result=res))
     return res
 
 
